@@ -181,6 +181,73 @@ def emit_puml(z: Zoo):
     return '\n'.join(out)
 
 
+def euml_expr(z, x):
+    if isinstance(x, str):
+        return f'g_{x}'
+    if x[0] == 'not':
+        return '!' + (euml_expr(z, x[1]) if isinstance(x[1], str) else '(' + euml_expr(z, x[1]) + ')')
+    if x[0] == 'and':
+        l = euml_expr(z, x[1])
+        r = euml_expr(z, x[2])
+        if isinstance(x[1], tuple) and x[1][0] == 'or':
+            l = '(' + l + ')'
+        if isinstance(x[2], tuple) and x[2][0] == 'or':
+            r = '(' + r + ')'
+        return f'{l} && {r}'
+    if x[0] == 'or':
+        return f'{euml_expr(z, x[1])} || {euml_expr(z, x[2])}'
+    raise ValueError(x)
+
+
+def emit_euml(z: Zoo):
+    """functor front-end whose transition table is an eUML expression (BOOST_MSM_EUML_DECLARE_TRANSITION_TABLE)"""
+    m = z.root
+    fe = m.name + '_'
+    out = []
+    out.append('using namespace boost::msm::front::euml;')
+    for e in z.events:
+        out.append(f'struct Ev_{e} : vf::EvBase, euml_event<Ev_{e}> {{ enum {{ eid = {z.eid[e]} }}; Ev_{e}() {{}} Ev_{e}(int s, int p) : vf::EvBase(s, p) {{}} }};')
+    for g, gid in z.gatom.items():
+        out.append(f'struct G_{g} : euml_action<G_{g}> {{ template <class Ev, class F, class S, class T> bool operator()(Ev const& e, F& f, S&, T&) const {{ return vf::callback(\'G\', {gid}, e, f); }} }};')
+        out.append(f'static G_{g} const g_{g};')
+    for a, aid in z.aatom.items():
+        out.append(f'struct A_{a} : euml_action<A_{a}> {{ template <class Ev, class F, class S, class T> void operator()(Ev const& e, F& f, S&, T&) const {{ vf::callback(\'A\', {aid}, e, f); }} }};')
+        out.append(f'static A_{a} const a_{a};')
+    for s_ in m.states:
+        assert s_.kind == 'simple' and not s_.irows and not s_.defer
+        out.append(f'struct {s_.name} : vf::ZS<{s_.sid}, msm::front::state<vf::VBase> >, euml_state<{s_.name}> {{}};')
+    out.append(f'struct {fe} : msm::front::state_machine_def<{fe}, vf::VBase> {{')
+    out.append(f'  enum {{ mid = {m.mid}, own_sid = {m.own_sid}, vf_nregions = {len(m.initial)} }};')
+    out.append(f'  virtual int vsid() const {{ return {m.own_sid}; }}')
+    out.append(f'  void accept(vf::Visitor& v) const {{ v.ids.push_back({m.own_sid}); }}')
+    out.append(f'  typedef {E.hist_front(z, m)} history;')
+    for s_ in m.states:
+        out.append(f'  typedef zoo::{s_.name} {s_.name};')
+    inits = ','.join(m.initial)
+    out.append(f'  typedef mpl::vector<{inits}> initial_state;' if len(m.initial) > 1 else f'  typedef {inits} initial_state;')
+    rows = []
+    for i, r in enumerate(m.rows):
+        t = f'{r.src}() + Ev_{r.evt}()'
+        if r.gexpr is not None:
+            t += ' [' + euml_expr(z, r.gexpr) + ']'
+        if r.aseq:
+            t += ' / ' + ('(' + ', '.join('a_' + a for a in r.aseq) + ')' if len(r.aseq) > 1 else 'a_' + r.aseq[0])
+        if r.tgt is not None:
+            # both documented orientations of a row are used
+            t = (t + f' == {r.tgt}()') if i % 2 == 0 else (f'{r.tgt}() == ' + t)
+        rows.append(t)
+    out.append('  BOOST_MSM_EUML_DECLARE_TRANSITION_TABLE((\n    ' + ',\n    '.join(rows) + '\n  ), transition_table)')
+    out.append('  int vf_data = 0;')
+    out.append(f'  template <class Ev, class F> void on_entry(Ev const& e, F& f) {{ vf::callback(\'N\', {m.own_sid}, e, f); }}')
+    out.append(f'  template <class Ev, class F> void on_exit(Ev const& e, F& f) {{ vf::callback(\'X\', {m.own_sid}, e, f); }}')
+    out.append('  template <class F, class Ev> void no_transition(Ev const& e, F& f, int st) { vf::callback(\'T\', st, e, f); }')
+    out.append('  template <class F, class Ev> void exception_caught(Ev const& e, F& f, std::exception&) { vf::callback(\'C\', 0, e, f); }')
+    out.append('};')
+    out.append(f'typedef VF_HIST({E.hist_back(z, m)}) {m.name}_hist;')
+    out.append(f'typedef VF_BACK({fe}, {m.name}_hist) {m.name};')
+    return '\n'.join(out)
+
+
 def emit(z: Zoo) -> str:
     pre = E.PRELUDE % {'name': z.name + ' [' + z.frontend + ']'}
     if z.frontend in ('basic', 'basic2'):
@@ -189,4 +256,8 @@ def emit(z: Zoo) -> str:
         pre = pre.replace('#include "cfg.hpp"', '#include "cfg.hpp"\n#include <boost/msm/front/puml/puml.hpp>')
         flags = ''.join(f'struct Fl_{f} {{}};\n' for f in z.flags)
         return pre + flags + emit_puml(z) + '\n' + E.emit_driver(z) + '\n'
+    if z.frontend == 'euml':
+        pre = pre.replace('#include "cfg.hpp"', '#include "cfg.hpp"\n#include <boost/msm/front/euml/euml.hpp>')
+        flags = ''.join(f'struct Fl_{f} {{}};\n' for f in z.flags)
+        return pre + flags + emit_euml(z) + '\n' + E.emit_driver(z) + '\n'
     raise ValueError(z.frontend)
